@@ -65,6 +65,17 @@ static inline int vh_deadline_now(void) {
     return vh_deadline_flag;
 }
 
+/* harnesses that link the interposed allocator: bookkeeping allocations bypass its per-case arena */
+int vm_suspend(void) __attribute__((weak));
+void vm_restore(int) __attribute__((weak));
+#define VH_NOVM_BEGIN int vmwas_ = vm_suspend ? vm_suspend() : 0
+#define VH_NOVM_END                                                                                                \
+    do {                                                                                                           \
+        if (vm_restore) {                                                                                          \
+            vm_restore(vmwas_);                                                                                    \
+        }                                                                                                          \
+    } while (0)
+
 /* ------------------------------------------------------------ string set */
 typedef struct vh_ent {
     char *key;
@@ -95,8 +106,10 @@ static vh_ent *vh_set_get(vh_set *s, const char *key, int create) {
     if (!create) {
         return NULL;
     }
+    VH_NOVM_BEGIN;
     vh_ent *e = calloc(1, sizeof(*e));
     e->key = strdup(key);
+    VH_NOVM_END;
     e->next = s->b[h];
     s->b[h] = e;
     s->count++;
@@ -118,15 +131,19 @@ static void vh_infostr(const char *name, const char *fmt, ...) {
     vsnprintf(buf, sizeof buf, fmt, ap);
     va_end(ap);
     vh_ent *e = vh_set_get(&vh_info, name, 1);
+    VH_NOVM_BEGIN;
     free(e->sample);
     e->sample = strdup(buf);
+    VH_NOVM_END;
 }
 /* register that a case of class `key` was explored; first sample is kept */
 static int vh_class_s(const char *key, const char *sample) {
     vh_ent *e = vh_set_get(&vh_classes, key, 1);
     e->n++;
     if (!e->sample && sample) {
+        VH_NOVM_BEGIN;
         e->sample = strdup(sample);
+        VH_NOVM_END;
         return 1;
     }
     return e->n == 1;
@@ -137,7 +154,9 @@ static int vh_class_s(const char *key, const char *sample) {
         if (e_->n++ == 0) {                                                    \
             char sb_[1024];                                                    \
             snprintf(sb_, sizeof sb_, __VA_ARGS__);                            \
+            VH_NOVM_BEGIN;                                                     \
             e_->sample = strdup(sb_);                                          \
+            VH_NOVM_END;                                                       \
         }                                                                      \
     } while (0)
 
@@ -172,6 +191,7 @@ static void vh_fail(const char *api, const char *kind, const char *trigger,
     if (vh_nfailkeys > 400) {
         return; /* flood guard; count is still kept in vh_nfail */
     }
+    VH_NOVM_BEGIN;
     vh_failure *f = calloc(1, sizeof(*f));
     f->api = strdup(api);
     f->kind = strdup(kind);
@@ -180,6 +200,7 @@ static void vh_fail(const char *api, const char *kind, const char *trigger,
     snprintf(ck, sizeof ck, "%s#%" PRIu64, vh_section, vh_idx);
     f->casekey = strdup(ck);
     f->detail = strdup(detail);
+    VH_NOVM_END;
     f->n = 1;
     f->next = vh_failures;
     vh_failures = f;
